@@ -508,12 +508,12 @@ CO_ERR COCSdoResponse(CO_CSDO *csdo)
     uint8_t  cmd;
     uint8_t  sub;
 
-    cmd = CO_GET_BYTE(csdo->Frm, 0u);
+    cmd   = CO_GET_BYTE(csdo->Frm, 0u);
+    index = CO_GET_WORD(csdo->Frm, 1u);
+    sub   = CO_GET_BYTE(csdo->Frm, 3u);
 
     if (cmd == 0x80u) {
         /* SDO abort protocol */
-        index = CO_GET_WORD(csdo->Frm, 1u);
-        sub   = CO_GET_BYTE(csdo->Frm, 3u);
         if ((index == csdo->Tfer.Idx) &&
             (sub   == csdo->Tfer.Sub)) {
             csdo->Tfer.Abort = CO_GET_LONG(csdo->Frm, 4u);
@@ -545,10 +545,16 @@ CO_ERR COCSdoResponse(CO_CSDO *csdo)
             COCSdoAbort(csdo, CO_SDO_ERR_CMD);
             COCSdoTransferFinalize(csdo);
         }
-    } else if (cmd == 0x60u) {
+    } else if ((index != csdo->Tfer.Idx) ||
+               (sub   != csdo->Tfer.Sub)) {
+        /* response to a different transfer */
+        COCSdoAbort(csdo, CO_SDO_ERR_PARA_INCOMP);
+    } else if ((csdo->Tfer.Type == CO_CSDO_TRANSFER_DOWNLOAD) &&
+               (cmd == 0x60u)) {
         result = COCSdoDownloadExpedited(csdo);
         return (result);
-    } else if ((cmd & 0x43u) != 0u) {
+    } else if ((csdo->Tfer.Type == CO_CSDO_TRANSFER_UPLOAD) &&
+               ((cmd & 0xE2u) == 0x42u)) {
         result = COCSdoUploadExpedited(csdo);
         return (result);
     } else {
